@@ -3929,7 +3929,9 @@ public:
 #endif
 
 #if SBEPP_HAS_THREE_WAY_COMPARISON
-    constexpr friend std::strong_ordering
+    // comparison category follows the underlying type: floating-point types
+    // are only partially ordered
+    constexpr friend std::compare_three_way_result_t<T>
         operator<=>(const optional_base& lhs, const optional_base& rhs) noexcept
     {
         if(lhs && rhs)
